@@ -23,6 +23,8 @@ func init() {
 		Run: runC01,
 		Controls: []Control{
 			{Name: "path-removed-by-tie-test", File: "route/route.go", Old: "\t\tif paths[j].Compare(remove) {\n", New: "\t\tif paths[j].Equal(remove) {\n", Expect: "removal-matches-by-full-comparison"},
+			{Name: "removal-drops-every-match", File: "route/route.go", Old: "\t\tif paths[j].Compare(remove) {\n\t\t\ti = j\n\t\t\tbreak\n\t\t}\n", New: "\t\tif paths[j].Compare(remove) {\n\t\t\ti = j\n\t\t}\n", Expect: "removal-takes-one-match"},
+			{Name: "removal-by-decision-equality", File: "route/route.go", Old: "\t\tif paths[j].Compare(remove) {\n", New: "\t\tif paths[j].Equal(remove) {\n", Expect: "decision-equality-is-not-identity"},
 			{Name: "children-of-a-dummy-adopted-by-one-bit", File: "routingtable/trie.go", Old: "func (n *node) insertBefore(pfx *net.Prefix, p *route.Path) *node {\n\ttmp := n\n", New: "func (n *node) adopt(c *node) {\n\tif c == nil {\n\t\treturn\n\t}\n\tif !c.route.Prefix().Addr().BitAtPosition(n.route.Pfxlen() + 1) {\n\t\tn.l = c\n\t\treturn\n\t}\n\tn.h = c\n}\n\nfunc (n *node) insertBefore(pfx *net.Prefix, p *route.Path) *node {\n\tif n.dummy {\n\t\tnw := newNode(pfx, p, n.skip-(n.route.Pfxlen()-pfx.Len()), false)\n\t\tnw.adopt(n.l)\n\t\tnw.adopt(n.h)\n\t\treturn nw\n\t}\n\ttmp := n\n", Expect: "child-slot-written-once-per-path"},
 			{Name: "getlonger-dumps-first-longer-node", File: "routingtable/trie.go", Old: "\tif currentPfx.Equal(pfx) || pfx.Contains(currentPfx) {\n\t\treturn n.dumpPfxs(res)\n\t}\n", New: "\tif currentPfx.Equal(pfx) || currentPfx.Len() > pfx.Len() {\n\t\treturn n.dumpPfxs(res)\n\t}\n", Expect: "longer-dumps-subtree"},
 			{Name: "refactor-getlonger-two-ifs", Silent: true, File: "routingtable/trie.go", Old: "\tif currentPfx.Equal(pfx) || pfx.Contains(currentPfx) {\n\t\treturn n.dumpPfxs(res)\n\t}\n", New: "\tif currentPfx.Equal(pfx) {\n\t\treturn n.dumpPfxs(res)\n\t}\n\tif pfx.Contains(currentPfx) {\n\t\treturn n.dumpPfxs(res)\n\t}\n"},
@@ -35,6 +37,8 @@ func init() {
 }
 
 func runC01(c *core.Ctx) {
+	removalTakesOneMatch(c, "removal-takes-one-match")
+	decisionEqualityIsNotIdentity(c, "decision-equality-is-not-identity")
 	childSlotWrittenOncePerPath(c)
 	removalMatchesByFullComparison(c)
 	p := c.P
